@@ -119,6 +119,14 @@ func (c *clientHello) marshal(aad bool) ([]byte, error) {
 }
 
 func parseClientHello(buf []byte) (*clientHello, error) {
+	return parseClientHelloMessage(buf, false)
+}
+
+// parseClientHelloMessage parses a ClientHello handshake message. encodedInner
+// is set for a decoded EncodedClientHelloInner, where the bytes that follow
+// the extensions are padding. A ClientHello received from the peer has
+// nothing after its extensions, and nothing follows it in its record.
+func parseClientHelloMessage(buf []byte, encodedInner bool) (*clientHello, error) {
 	hello := new(clientHello)
 
 	// https://datatracker.ietf.org/doc/html/rfc8446#section-4
@@ -140,7 +148,7 @@ func parseClientHello(buf []byte) (*clientHello, error) {
 		return nil, fmt.Errorf("%w: msg_type 0x%x != 0x01", ErrUnexpectedMessage, msgType)
 	}
 	var ss cryptobyte.String
-	if !s.ReadUint24LengthPrefixed(&ss) {
+	if !s.ReadUint24LengthPrefixed(&ss) || !s.Empty() {
 		return nil, ErrDecodeError
 	}
 	s = ss
@@ -230,6 +238,11 @@ func parseClientHello(buf []byte) (*clientHello, error) {
 				return nil, ErrIllegalParameter
 			}
 		}
+	} else if !encodedInner && !s.Empty() {
+		// Bytes that are not part of the ClientHello structure would be
+		// dropped when the hello is marshaled again, and would be missing
+		// from ClientHelloOuterAAD.
+		return nil, fmt.Errorf("%w: data after extensions", ErrDecodeError)
 	}
 	return hello, nil
 }
